@@ -38,6 +38,18 @@ def run(check: Check) -> None:
         r = ch_c14.classify(s, ch_c14.PYFLAGS[fl], ii)
         if r.startswith("escape") or r == "python-syntax":
             bad.append((s, r, {"flags": list(ch_c14.PYFLAGS[fl]), "ii": ii, "valid_python": True}))
+    # parser objects with a history (native, the whole space the CrossHair harness `flag_switch` explores)
+    for f1, f2, w in itertools.product(range(8), range(8), range(4)):
+        ch_c14.__dict__["__SHARD__"] = f2
+        for ks in itertools.product(range(7), repeat=3):
+            n += 1
+            try:
+                okh = ch_c14.flag_switch(f1, f2, w, *ks)
+            except Exception:
+                okh = False
+            if okh is not True:
+                sfs = " ".join(ch_c14.FLAG_ALPHA[k] for k in ks)
+                bad.append((sfs, "parser-history", {"history": [f1, f2, w, list(ks)]}))
     # native fuzz companion (ground): character-level mutations of grammar-derived formulas under rotating flag subsets; every string
     # gets a verdict (formula / parsing error) within 10 s - a parse that does not come back is neither
     import signal
@@ -71,6 +83,11 @@ def run(check: Check) -> None:
     check.info["fuzz_strings"] = nf
     check.obligation("streams/native cross-validation", "ground", n - len(bad))
     for s, c, extra in bad[:20]:
+        if c == "parser-history":
+            f1, f2, w, ks = extra["history"]
+            call = {"args": [f1, f2, w] + ks, "kwargs": {}}
+            check.violation(f"parser-history::{s}", ch_c14.explain("flag_switch", call), {"kind": "ch_native", "module": "ch_c14", "function": "flag_switch", "call": call, "globals": {"__SHARD__": f2}})
+            continue
         check.violation(f"{c}::{s}", f"{c}: formula {s!r} ({extra})", {"kind": "c14_string", "s": s, **extra})
     fns = {
         "tokenizer_total": [{"N": 3 if thorough else 2}],
@@ -80,6 +97,7 @@ def run(check: Check) -> None:
         "flags3": [{"SHARD": f, "N": (10 if thorough else 1), "M": (10 if thorough else 7)} for f in range(8)],
         "edit1": list(range(20 if thorough else 10)),
         "pyfrag": list(range(25)) if thorough else [0, 2, 3, 4, 12, 17, 18, 24],
+        "flag_switch": list(range(8)) if thorough else [0, 3, 7],
     }
     if thorough:
         fns["err3full"] = list(range(33))
